@@ -891,6 +891,12 @@ func (fc *functionCollector) collectFromNode(node ast.Node) {
 	}
 
 	switch n := node.(type) {
+	case *ast.FunctionCall:
+		// calls reached through the generic Children() walk below (RETURNING,
+		// DISTINCT ON, ROLLUP/CUBE arguments, JOIN conditions, subscripts, ...)
+		if n.Name != "" {
+			fc.functions[n.Name] = true
+		}
 	case *ast.SelectStatement:
 		for _, col := range n.Columns {
 			fc.collectFromExpression(col)
